@@ -475,6 +475,47 @@ func (s *sim) wireCheck(name string, v sszPlain, fresh func() sszPlain, fixedSiz
 	}
 }
 
+// C14: the envelope check accepts the honest signature and refuses the same block signed under
+// every OTHER fork version of the schedule (and under another chain's genesis validators root).
+func (s *sim) checkEnvelopeSignature(b *blockRec, pre *stateBox) {
+	w := s.w
+	pub, ok := pre.epc.ValidatorPubkeyCache.Pubkey(b.env.ProposerIndex)
+	ki := w.keyOf(pre.st, b.env.ProposerIndex)
+	if !ok || ki < 0 {
+		return
+	}
+	s.res.Stat("envelope_signature_checks", 1)
+	if !b.env.VerifySignature(w.spec, w.gvr, b.env.ProposerIndex, pub) {
+		s.viol("C14", "envelope-signature/honest-refused", fmt.Sprintf("block at slot %d (%s) signed under the version its slot implies does not verify through BeaconBlockEnvelope.VerifySignature", b.slot, forkName(b.post.st)))
+		return
+	}
+	fidx := w.forkIndexAt(w.epochOf(b.slot))
+	for f := 0; f < 5; f++ {
+		if w.versionOfFork(f) == w.versionOfFork(fidx) {
+			continue
+		}
+		bad := *b.env
+		bad.Signature = w.keys.sign(ki, signingRoot(bad.BlockRoot, computeDomain(common.DOMAIN_BEACON_PROPOSER, w.versionOfFork(f), w.gvr)))
+		if bad.VerifySignature(w.spec, w.gvr, bad.ProposerIndex, pub) {
+			s.viol("C14", "envelope-signature/other-version-accepted", fmt.Sprintf("block at slot %d (fork #%d) signed under the version of fork #%d verifies through the envelope check", b.slot, fidx, f))
+			return
+		}
+		// the digest of the other fork with the matching signature must not verify either
+		bad.ForkDigest = w.digestOfFork(f)
+		if bad.VerifySignature(w.spec, w.gvr, bad.ProposerIndex, pub) {
+			s.viol("C14", "envelope-signature/other-version-accepted", fmt.Sprintf("block at slot %d (fork #%d) with digest and signature of fork #%d verifies through the envelope check", b.slot, fidx, f))
+			return
+		}
+	}
+	g := w.gvr
+	g[5] ^= 1
+	bad := *b.env
+	bad.Signature = w.keys.sign(ki, signingRoot(bad.BlockRoot, computeDomain(common.DOMAIN_BEACON_PROPOSER, w.versionOfFork(fidx), g)))
+	if bad.VerifySignature(w.spec, w.gvr, bad.ProposerIndex, pub) {
+		s.viol("C14", "envelope-signature/other-chain-accepted", fmt.Sprintf("block at slot %d signed for another genesis validators root verifies", b.slot))
+	}
+}
+
 // ---------- C15: accessors on reached states ----------
 
 func (s *sim) rawOf(st common.BeaconState) interface{} {
